@@ -696,3 +696,33 @@ def cproj(part):
             return [P('isinf(z) ? +inf : re', T.sel(cond, inf, a))]
         return [P('isinf(z) ? copysign(0, im) : im', T.sel(cond, T.copysign(K(ty, 0), b), b))]
     return f
+
+
+# ---------------------------------------------------------------- nextafter (C02)
+def nextafter_spec(ty, a, b):
+    """nextafter(from, to), the C library's function on the lane's values (class I: reviewed algorithm on the bit pattern):
+         NaN operand            -> from + to (a NaN)
+         from == to             -> to
+         moving up   (to > from): from < 0 ? bits - 1 : bits + 1;  from == +-0 -> +denorm_min;  from == +inf stays
+         moving down (otherwise): from > 0 ? bits - 1 : bits + 1;  from == +-0 -> -denorm_min;  from == -inf stays
+       bits +- 1 on a non-zero finite value is its representable neighbour away from / towards zero (IEEE-754 bit layout:
+       the encodings of one sign are ordered like their magnitudes, including across binades and into infinity)."""
+    w = ty.bits
+    zero = T.const(w, 0)
+    one = T.const(w, 1)
+    inf = _fk(ty, 0x7f800000, 0x7ff0000000000000)
+    ninf = _fk(ty, 0xff800000, 0xfff0000000000000)
+    dmin = T.const(w, 1)
+    ndmin = T.const(w, (1 << (w - 1)) | 1)
+    mone = T.const(w, -1)
+    # bits + (cond ? -1 : +1): the form the compiler gives to cond ? bits - 1 : bits + 1
+    nxt = T.add(a, T.sel(T.fcmp('olt', a, zero), mone, one))
+    nxt = T.sel(T.fcmp('oeq', a, zero), dmin, nxt)
+    nxt = T.sel(T.fcmp('oeq', a, inf), a, nxt)
+    prv = T.add(a, T.sel(T.fcmp('ogt', a, zero), mone, one))
+    prv = T.sel(T.fcmp('oeq', a, zero), ndmin, prv)
+    prv = T.sel(T.fcmp('oeq', a, ninf), a, prv)
+    r = T.sel(T.fcmp('oeq', a, b), b, T.sel(T.fcmp('ogt', b, a), nxt, prv))
+    lab = 'nextafter: the neighbour of from in the direction of to (C library semantics)'
+    return [I(lab, T.sel(T.fcmp('uno', a, b), _fadd(ty, a, b), r)),
+            I(lab, T.sel(T.or_(T.fcmp('uno', a, a), T.fcmp('uno', b, b)), _fadd(ty, a, b), r))]
